@@ -47,6 +47,10 @@ ASSUMPTIONS = [
     "kraus_to_choi is checked with its default sys=2 only (the property text fixes J = sum E_ij (x) Phi(E_ij))",
     "channel_dim's environment dimension of a Choi matrix is compared with r only when the r pairs are linearly "
     "independent by a margin (smallest of the r leading singular values > 1e-6 * largest)",
+    "partial_channel with a CP list form (flat / nested / single row) is drawn with square surroundings in the main "
+    "sub-check; CP list forms with different surrounding row and column dims are the separate sub-check "
+    "partial_channel_cp_list_rect (one root cause, own signature), likewise Hermitian Choi matrices of maps between "
+    "rectangular operator spaces (choi_to_kraus_hermitian_rect)",
     "numpy matmul / kron / einsum are trusted as the reference arithmetic",
 ]
 
